@@ -749,4 +749,51 @@ def pol_frames(ctx):
     return res
 
 
-RULES = [no_stale, pol_frames, fresnel, rotation_law, retarder, projectors, aoi]
+def coating_media(ctx):
+    """a Fresnel coating computes its coefficients from the media it holds;
+    they must be the media of its surface after every edit of the index"""
+    from ..match import find
+    P = ctx.P
+    res = Result('COATING-MEDIA', 'FresnelCoating holds the two media of its '
+                 'surface; set_index, which rebinds them, rebuilds the '
+                 'Fresnel coatings of the two surfaces it touches')
+    fc = P.func('FresnelCoating.__init__')
+    sf = P.func('Surface.set_fresnel_coating')
+    si = P.func('Optic.set_index')
+    for f in (fc, sf, si):
+        res.saw(f)
+    if find(sf, 'self.coating = FresnelCoating(self.material_pre, '
+                'self.material_post)'):
+        res.ok('Surface.set_fresnel_coating: coating of (material_pre, '
+               'material_post)')
+    else:
+        res.fail(ctx.finding('COATING-MEDIA', sf, sf.node,
+                             'set_fresnel_coating does not use the media of '
+                             'its surface', construct='set_fresnel_coating'))
+    rebuilt = [n for n in ast.walk(si.node) if isinstance(n, ast.Call) and
+               isinstance(n.func, ast.Attribute) and
+               n.func.attr == 'set_fresnel_coating']
+    stores = [n for n in ast.walk(si.node) if isinstance(n, ast.Assign) and
+              isinstance(n.targets[0], ast.Attribute) and
+              n.targets[0].attr in ('material_pre', 'material_post')]
+    loops = [n for n in ast.walk(si.node) if isinstance(n, ast.For) and
+             any(c in ast.walk(n) for c in rebuilt)]
+    ok = bool(rebuilt) and stores and \
+        min(c.lineno for c in rebuilt) > max(s_.lineno for s_ in stores) and (
+            len(rebuilt) >= 2 or (loops and isinstance(
+                loops[0].iter, (ast.Tuple, ast.List)) and
+                len(loops[0].iter.elts) == 2))
+    if ok:
+        res.ok('set_index rebuilds the Fresnel coatings of both surfaces '
+               'after rebinding the media')
+    else:
+        res.fail(ctx.finding(
+            'COATING-MEDIA', si, si.node,
+            'set_index (and index variables through it) rebinds the media '
+            'of two surfaces but leaves their Fresnel coatings with the old '
+            'media: the traced transmittance stays that of the previous '
+            'index', construct='set_index stale coating media'))
+    return res
+
+
+RULES = [coating_media, no_stale, pol_frames, fresnel, rotation_law, retarder, projectors, aoi]
